@@ -111,6 +111,22 @@ func genC01(c *w1Case, r *simrt.Rng, thorough bool) {
 		axisKindsPerMapping: true, handlers: r.Range(1, 2), analogSubs: true}
 	c.d = baseDesc(r, o)
 	forceHatLike(c.d, r)
+	if axes > 0 && r.Chance(0.06) {
+		// discovery could not read the ranges of one axis: whatever it is mapped to, its events can mean nothing
+		code := c.d.Mappings[0].Analog[0].Axes
+		if len(code) > 0 {
+			bad := code[r.Intn(len(code))].Code
+			for mi := range c.d.Mappings {
+				for si := range c.d.Mappings[mi].Analog {
+					for ai := range c.d.Mappings[mi].Analog[si].Axes {
+						if a := &c.d.Mappings[mi].Analog[si].Axes[ai]; a.Code == bad {
+							a.NoInfo = true
+						}
+					}
+				}
+			}
+		}
+	}
 	g := newScriptGen(r, c.d)
 	rounds := r.Range(1, 3)
 	for i := 0; i < rounds; i++ {
